@@ -1,11 +1,18 @@
 """Scripted stand-in for the `secrets` module: draws are interpreted relative to the bound the code passes."""
 
 
+class NonTermination(Exception):
+    """The code under test consulted the random source more often than any terminating retry loop plausibly needs:
+    a call counter (never a clock) turns a non-terminating retry loop into a deterministic failure."""
+
+
 class ScriptedSecrets:
     """script: list of 'zero' | 'one' | 'max' | int.  After the script is exhausted a fixed non-degenerate fallback
     sequence is served (so code that legitimately retries on a rejected draw always terminates)."""
 
     FALLBACK = [0x6B17D1F2E12C4247F8BCE6E563A440F277037D812DEB33A0F4A13945D898C296, 0x4FE342E2FE1A7F9B8EE7EB4A7C0F9E162BCE33576B315ECECBB6406837BF51F5]
+
+    MAX_CALLS = 5000
 
     def __init__(self, script):
         self.script = list(script)
@@ -13,6 +20,8 @@ class ScriptedSecrets:
         self.i = 0
 
     def _next(self):
+        if self.i >= self.MAX_CALLS:
+            raise NonTermination(f"random source consulted {self.i} times in one operation")
         if self.i < len(self.script):
             v = self.script[self.i]
         else:
